@@ -136,7 +136,10 @@ func main() {
 		}
 		for i := 0; i < n; i++ {
 			sc := e.Gen(core.NewRand(core.Mix(*seed, core.HashString(e.ID()), uint64(i))), *tier, i)
-			out := core.SafeRun(e, sc, false)
+			out := core.SafeRun(e, sc, *verbose)
+			for _, l := range out.Log {
+				fmt.Printf("   %d: %s\n", i, l)
+			}
 			h := uint64(0)
 			for _, x := range out.Hashes {
 				h = core.Mix(h, x)
